@@ -225,6 +225,38 @@ func (x *h) Observe() *seqmc.Fail {
 	if sig, msg := observe(x.s, x.m); sig != "" {
 		return &seqmc.Fail{Sig: sig, Msg: msg}
 	}
+	// Range whose callback, at its first call, removes another member (on a clone): only members are
+	// visited, none twice, and every member that was not removed is visited
+	if members := x.m.list(); len(members) >= 2 {
+		for _, victim := range members {
+			cl := x.s.Clone()
+			var visits []int
+			cl.Range(func(v int) bool {
+				visits = append(visits, v)
+				if len(visits) == 1 {
+					t := victim
+					if t == v {
+						t = members[0]
+						if t == v {
+							t = members[1]
+						}
+					}
+					cl.Remove(t)
+				}
+				return true
+			})
+			seen := map[int]bool{}
+			for _, v := range visits {
+				if !x.m.has(v) || seen[v] {
+					return &seqmc.Fail{Sig: "Range:during-removal", Msg: fmt.Sprintf("Range whose callback removes another member visited %v; members were %v", visits, members)}
+				}
+				seen[v] = true
+			}
+			if len(visits) < len(members)-1 {
+				return &seqmc.Fail{Sig: "Range:during-removal", Msg: fmt.Sprintf("Range whose callback removes ONE other member visited only %v of %v", visits, members)}
+			}
+		}
+	}
 	// Clone: same members, independent
 	c := x.s.Clone()
 	if sig, msg := observe(c, x.m); sig != "" {
